@@ -38,6 +38,19 @@ pub fn flags() -> Flags {
 fn large_case(rng: &mut Rng, idx: u64) -> Case {
     // idx 0: V3 DIFAT; others: several FAT / dir / MiniFAT sectors
     let version = if idx % 3 == 2 { 4 } else { 3 };
+    if idx == 9 {
+        // thorough tier only (LARGE_QUICK = 8): a VERSION 4 file past 109 FAT sectors
+        // (109 * 1024 sectors * 4096 bytes = 457 MB), i.e. the first DIFAT sector in V4
+        let mut c = Case::new("C03", "large-v4-difat", 4);
+        c.ops.push(Op::WriteWhole { path: "/a".into(), len: 70, nonce: 1 });
+        c.ops.push(Op::HCreate { h: 0, path: "/big".into() });
+        c.ops.push(Op::HSetLen { h: 0, n: 457_500_000 + rng.below(2_000_000) });
+        c.ops.push(Op::HSeek { h: 0, whence: crate::ops::Whence::End, off: -500, uoff: 0 });
+        c.ops.push(Op::HWriteAll { h: 0, len: 500, nonce: 2 });
+        c.ops.push(Op::HDrop { h: 0 });
+        c.ops.push(Op::WriteWhole { path: "/b".into(), len: 5000, nonce: 3 });
+        return c;
+    }
     if idx == 7 || (idx > 8 && idx % 16 == 7) {
         // TWO DIFAT sectors in V3: > 109 + 127 FAT sectors = > 30208 sectors (~15.5 MB)
         let mut c = Case::new("C03", "large-2-difat", 3);
